@@ -1,0 +1,9 @@
+//go:build !verif
+// +build !verif
+
+package backend
+
+import "time"
+
+// backendNow is the clock read by the fuse / health-check code.
+func backendNow() time.Time { return time.Now() }
